@@ -10,7 +10,7 @@ NOT_APPLICABLE["C03"] = ("relation between an arbitrary dynamic call tree and an
                          "evolution of handler collections and accumulator forks; no sound static abstraction in reach bounds embeddings")
 NOT_APPLICABLE["C07"] = ("quantifies over call trees and runtime data flow through Total accumulator forks; its only structural clause "
                          "(exit hook on every way out) is decided under C06 rule R06.1")
-SOURCE_COMMITS = ["746fd1a fix: undo the instrumentation counts when the new variant cannot be installed", "798314f fix: untool the functions of a selector that autotool ends up refusing", "f8603ba fix: roll back the tooling of earlier selectors when a later one is refused"]
+SOURCE_COMMITS = ["746fd1a fix: undo the instrumentation counts when the new variant cannot be installed", "798314f fix: untool the functions of a selector that autotool ends up refusing", "f8603ba fix: roll back the tooling of earlier selectors when a later one is refused", "e29e1a9 fix: mark the cached instrumented variants as helper functions"]
 
 claim("C12", "P", "AST normal-form comparison tables + wrapper-guard agreement (syntactic dataflow)",
       "Decides structural clauses only: each stock comparison predicate is the single comparison its name states (holds for all "
@@ -39,3 +39,10 @@ claim("C17", "P", "dominance / must-pass-through on the CFG of Probe._enter/_exi
       "atexit completion of global probes. Results of reductions and late-subscriber behaviour inside reactivex are not decided.",
       "Trusted: giving.gvn.SourceProxy as installed (re-read and matched structurally on every run); reactivex semantics of on_completed.",
       "DESIGN.md section 6, C17")
+
+claim("C14", "P", "dominance of the registry update over every __code__ store (CFG), escape-to-long-lived-store analysis for helper function objects, builder/resolver table agreement",
+      "Decides the per-swap invariant behind C14 for every history: registry updated before every code swap with matching arguments; every ptera-made function "
+      "object that shares or lends a code object is marked __ptera_discard__ before it is kept, the user's function never; refstring builder and resolver are inverse "
+      "on their separators and use the same lookup. Histories of activate/resolve and codefind itself are not decided.",
+      "Trusted: codefind.registry semantics as read from the installed source; _Conformer.__conform__ (hot patching) is listed out of scope, not judged.",
+      "DESIGN.md section 6, C14")
